@@ -3,3 +3,4 @@ pub mod eval;
 pub mod print;
 pub mod prog;
 pub mod mutate;
+pub mod w;
